@@ -13,6 +13,7 @@ import (
 	"reflect"
 	"strings"
 	"sync"
+	"sync/atomic"
 	"time"
 
 	"github.com/cenkalti/backoff/v4"
@@ -102,6 +103,11 @@ type ovsdbClient struct {
 	disconnect    chan struct{}
 	shutdown      bool
 	shutdownMutex sync.Mutex
+	// connGeneration numbers the rpc clients created so far. The update
+	// handlers of a client carry its number: a notification still in the hands
+	// of an abandoned connection is recognised and dropped. Incremented with
+	// rpcMutex held, read by the handlers under the database's cacheMutex.
+	connGeneration int64
 	// reconnecting is set (under rpcMutex) from the loss of a connection until
 	// a connection is set up again: whoever connects in between, the retry
 	// loop or a Connect call, has to restart the monitors
@@ -476,17 +482,21 @@ func (o *ovsdbClient) createRPC2Client(conn net.Conn) {
 	}
 	o.rpcClient = rpc2.NewClientWithCodec(&serialWriteCodec{Codec: jsonrpc.NewJSONCodec(conn)})
 	o.rpcClient.SetBlocking(true)
+	// from now on the notifications of any earlier connection are stale: a
+	// connection given up in the middle of its set-up is closed without
+	// waiting for its read loop, which may still be handling one
+	generation := atomic.AddInt64(&o.connGeneration, 1)
 	o.rpcClient.Handle("echo", func(_ *rpc2.Client, args []interface{}, reply *[]interface{}) error {
 		return o.echo(args, reply)
 	})
 	o.rpcClient.Handle("update", func(_ *rpc2.Client, args []json.RawMessage, reply *[]interface{}) error {
-		return o.update(args, reply)
+		return o.updateFrom(generation, args, reply)
 	})
 	o.rpcClient.Handle("update2", func(_ *rpc2.Client, args []json.RawMessage, reply *[]interface{}) error {
-		return o.update2(args, reply)
+		return o.update2(generation, args, reply)
 	})
 	o.rpcClient.Handle("update3", func(_ *rpc2.Client, args []json.RawMessage, reply *[]interface{}) error {
-		return o.update3(args, reply)
+		return o.update3(generation, args, reply)
 	})
 	go o.rpcClient.Run()
 }
@@ -656,6 +666,12 @@ func (o *ovsdbClient) echo(args []interface{}, reply *[]interface{}) error {
 // - json-value: the arbitrary json-value passed when creating the Monitor, i.e. the "cookie"
 // - table-updates: map of table name to table-update. Table-update is a map of uuid to (old, new) row paris
 func (o *ovsdbClient) update(params []json.RawMessage, reply *[]interface{}) error {
+	return o.updateFrom(atomic.LoadInt64(&o.connGeneration), params, reply)
+}
+
+// updateFrom handles an update notification received on the connection with
+// the given generation number
+func (o *ovsdbClient) updateFrom(generation int64, params []json.RawMessage, reply *[]interface{}) error {
 	cookie := MonitorCookie{}
 	*reply = []interface{}{}
 	if len(params) > 2 {
@@ -681,6 +697,11 @@ func (o *ovsdbClient) update(params []json.RawMessage, reply *[]interface{}) err
 
 	verifPoint("client.update.before")
 	db.cacheMutex.Lock()
+	if generation != atomic.LoadInt64(&o.connGeneration) {
+		// left over from a connection that has been replaced
+		db.cacheMutex.Unlock()
+		return nil
+	}
 	if db.deferUpdates {
 		db.deferredUpdates = append(db.deferredUpdates, &bufferedUpdate{&updates, nil, ""})
 		db.cacheMutex.Unlock()
@@ -690,6 +711,10 @@ func (o *ovsdbClient) update(params []json.RawMessage, reply *[]interface{}) err
 
 	// Update the local DB cache with the tableUpdates
 	db.cacheMutex.RLock()
+	if generation != atomic.LoadInt64(&o.connGeneration) {
+		db.cacheMutex.RUnlock()
+		return nil
+	}
 	err = db.cache.Update(cookie.ID, updates)
 	db.cacheMutex.RUnlock()
 
@@ -701,7 +726,7 @@ func (o *ovsdbClient) update(params []json.RawMessage, reply *[]interface{}) err
 }
 
 // update2 handling from ovsdb-server.7
-func (o *ovsdbClient) update2(params []json.RawMessage, reply *[]interface{}) error {
+func (o *ovsdbClient) update2(generation int64, params []json.RawMessage, reply *[]interface{}) error {
 	cookie := MonitorCookie{}
 	*reply = []interface{}{}
 	if len(params) > 2 {
@@ -723,6 +748,11 @@ func (o *ovsdbClient) update2(params []json.RawMessage, reply *[]interface{}) er
 
 	verifPoint("client.update.before")
 	db.cacheMutex.Lock()
+	if generation != atomic.LoadInt64(&o.connGeneration) {
+		// left over from a connection that has been replaced
+		db.cacheMutex.Unlock()
+		return nil
+	}
 	if db.deferUpdates {
 		db.deferredUpdates = append(db.deferredUpdates, &bufferedUpdate{nil, &updates, ""})
 		db.cacheMutex.Unlock()
@@ -732,6 +762,10 @@ func (o *ovsdbClient) update2(params []json.RawMessage, reply *[]interface{}) er
 
 	// Update the local DB cache with the tableUpdates
 	db.cacheMutex.RLock()
+	if generation != atomic.LoadInt64(&o.connGeneration) {
+		db.cacheMutex.RUnlock()
+		return nil
+	}
 	err = db.cache.Update2(cookie, updates)
 	db.cacheMutex.RUnlock()
 
@@ -743,7 +777,7 @@ func (o *ovsdbClient) update2(params []json.RawMessage, reply *[]interface{}) er
 }
 
 // update3 handling from ovsdb-server.7
-func (o *ovsdbClient) update3(params []json.RawMessage, reply *[]interface{}) error {
+func (o *ovsdbClient) update3(generation int64, params []json.RawMessage, reply *[]interface{}) error {
 	cookie := MonitorCookie{}
 	*reply = []interface{}{}
 	if len(params) > 3 {
@@ -771,6 +805,11 @@ func (o *ovsdbClient) update3(params []json.RawMessage, reply *[]interface{}) er
 
 	verifPoint("client.update.before")
 	db.cacheMutex.Lock()
+	if generation != atomic.LoadInt64(&o.connGeneration) {
+		// left over from a connection that has been replaced
+		db.cacheMutex.Unlock()
+		return nil
+	}
 	if db.deferUpdates {
 		db.deferredUpdates = append(db.deferredUpdates, &bufferedUpdate{nil, &updates, lastTransactionID})
 		db.cacheMutex.Unlock()
@@ -780,6 +819,10 @@ func (o *ovsdbClient) update3(params []json.RawMessage, reply *[]interface{}) er
 
 	// Update the local DB cache with the tableUpdates
 	db.cacheMutex.RLock()
+	if generation != atomic.LoadInt64(&o.connGeneration) {
+		db.cacheMutex.RUnlock()
+		return nil
+	}
 	err = db.cache.Update2(cookie, updates)
 	db.cacheMutex.RUnlock()
 
